@@ -277,6 +277,9 @@ func calcSegmentAvailabilityTime(a *asset, rep *RepData, nr uint32, cfg *Respons
 	wrapLen := len(rep.Segments)
 	startNr := cfg.getStartNr()
 	nrAfterStart := int(nr) - startNr
+	if nrAfterStart < 0 || wrapLen == 0 {
+		return 0, fmt.Errorf("segment number %d is before startNumber %d", nr, startNr)
+	}
 	nrWraps := nrAfterStart / wrapLen
 	relNr := nrAfterStart - nrWraps*wrapLen
 	wrapDur := a.LoopDurMS * rep.MediaTimescale / 1000
